@@ -179,7 +179,8 @@ class Node(object):
             child.parent = self
 
         if self.nsmap == child.nsmap:
-            child.nsmap = self.nsmap
+            if list(self.nsmap) == list(child.nsmap):
+                child.nsmap = self.nsmap
         else:
             for prefix in self.nsmap:
                 if prefix not in child.nsmap:
